@@ -540,8 +540,9 @@ func i64(v int64) *int64 { return &v }
 func scripted(name string, ptper int, cmds []Cmd) *Case {
 	w := newWorld(name, true, ptper, true)
 	for _, c := range cmds {
-		if w.exec(c) == 2 {
-			break
+		res := w.exec(c)
+		if res == 2 || (res == 0 && c.X == "rename" && staleKey(w)) {
+			break // (a stale policy key: one finding per case, as in generated cases)
 		}
 	}
 	return finish(w)
